@@ -22,7 +22,13 @@ def gen_case(seed, extra=None):
         seq = [first] + [_gen_lockstep(rng, seed + 1 + i) for i in range(rng.choice([1, 1, 2]))]
         if rng.random() < 0.5:
             seq.append(dict(seq[0]))      # the first program once more
-        return {"kind": "sequence", "cases": seq, "seed": seed}
+        shared = rng.random() < 0.5
+        if shared:
+            # one Action object for all files and the same goals / iterations / samples, as one CLI call has them
+            it, sa = seq[0]["iterations"], seq[0]["samples"]
+            for c in seq:
+                c.update(mode="action", goals=[[["x", 1]]], iterations=it, samples=sa)
+        return {"kind": "sequence", "cases": seq, "seed": seed, "shared_action": shared}
     return first
 
 
@@ -81,6 +87,9 @@ def _run_in_child(case):
     if case["kind"] == "sampler":
         r = c12.run_sampler_case(case)
     elif case["kind"] == "sequence":
+        if case.get("shared_action"):
+            c0 = case["cases"][0]
+            c12.make_shared_action(c0["goals"], c0["iterations"], c0["samples"])
         subs = [c12.run_case(c) for c in case["cases"]]
         bad = [i for i, x in enumerate(subs) if x.get("outcome") == "violation"]
         r = dict(subs[bad[0]] if bad else subs[-1])
@@ -88,6 +97,7 @@ def _run_in_child(case):
         r["violating_index"] = bad[0] if bad else None
         r["draws"] = sum(x.get("draws", 0) for x in subs)
         r["sequence_len"] = len(subs)
+        r["shared_action"] = bool(case.get("shared_action"))
         r["digest"] = c12._digest([x.get("digest") for x in subs])
         if not bad:
             r["outcome"] = "ok" if any(x.get("outcome") == "ok" for x in subs) else subs[-1].get("outcome")
@@ -278,6 +288,7 @@ def summarize(results, tier):
         if r.get("kind") in ("lockstep", "sequence") and r.get("outcome") in ("ok", "violation"):
             if r.get("kind") == "sequence":
                 probes["multi_program_sequences"] += 1
+                probes["shared_action_sequences"] += 1 if r.get("shared_action") else 0
             p = r.get("probes", {})
             for k, v in p.items():
                 if k == "families":
